@@ -22,8 +22,10 @@ VERIF = os.path.dirname(os.path.dirname(os.path.abspath(__file__)))
 REPO = os.environ.get("VERIF_REPO", "/repo")
 SPEC = os.path.join(VERIF, "spec")
 HARNESS = os.path.join(VERIF, "harness")
-EVIDENCE = os.path.join(VERIF, "evidence")
-REPLAY = os.path.join(VERIF, "replay")
+# evidence and replay files describe runs against /repo itself; a run against a scratch worktree (VERIF_REPO, used for the
+# seeded changes) must not overwrite them
+EVIDENCE = os.path.join(VERIF, "evidence") if REPO == "/repo" else os.path.join("/tmp", "verif-scratch-evidence")
+REPLAY = os.path.join(VERIF, "replay") if REPO == "/repo" else os.path.join("/tmp", "verif-scratch-replay")
 KNOWN = os.path.join(VERIF, "known_findings.json")
 NCPU = os.cpu_count() or 4
 
